@@ -17,7 +17,7 @@ def hooks : Hooks where
 
 def cfgOfArgs (kv : List (String × String)) : Cfg :=
   { r := ⟨boolArg kv "shortHeaderIsEOF", boolArg kv "tornDataIsEOF", false⟩,
-    syncFsyncs := true, closeFsyncs := boolArg kv "closeFsyncs", truncatesTornTail := false,
+    syncFsyncs := true, closeFsyncs := boolArg kv "closeFsyncs", truncatesTornTail := boolArg kv "truncatesTornTail",
     loadCleansTemp := boolArg kv "loadCleansTemp", rmTempLocked := boolArg kv "rmTempLocked",
     rmTempFromIndex := boolArg kv "rmTempFromIndex", rmTempCompactor := boolArg kv "rmTempCompactor" }
 
